@@ -22,7 +22,22 @@ pub fn gens() -> Vec<Gen> {
 }
 
 pub fn credential(k: usize) -> Cfg {
-    if (k / 3) % 3 == 2 {
+    if (k / 3) % 4 == 3 {
+        // members whose names merely start with `_sd`, kept in clear in nested objects and inside
+        // disclosed values / disclosed array elements
+        let claims = json!({
+            "iss": "https://issuer.example/i", "exp": FAR_EXP, "vis": "v", "_sdk_version": "1",
+            "device": {"model": "m", "_sdk_version": "2", "_sd_alg": "x", "_sd_card": {"_sd1": 1, "serial": "s"}},
+            "apps": [{"_sdx": 1, "n": "a", "...x": [{"_sd_": true}]}, "s"]
+        });
+        let strategy = match k % 3 {
+            0 => Strategy::Custom(vec!["$.device".into(), "$.apps[0]".into()]),
+            1 => Strategy::TopLevel,
+            _ => Strategy::Custom(vec!["$.vis".into(), "$.device._sd_card".into(), "$.apps[1]".into()]),
+        };
+        return Cfg::simple(claims, strategy).variant(k);
+    }
+    if (k / 3) % 4 == 2 {
         // null / false / 0 / "" / [] / {} as hidden array elements and hidden member values
         let claims = json!({"iss": "https://issuer.example/i", "exp": FAR_EXP, "vis": "v", "ms": [12, null, false, 0, "", [], {}], "o": {"n": null, "z": 0}});
         let strategy = match k % 3 {
@@ -32,7 +47,7 @@ pub fn credential(k: usize) -> Cfg {
         };
         return Cfg::simple(claims, strategy).variant(k);
     }
-    if (k / 3) % 3 == 1 {
+    if (k / 3) % 4 == 1 {
         // arrays directly inside arrays, hidden on both levels
         let claims = json!({"iss": "https://issuer.example/i", "exp": FAR_EXP, "vis": "v", "m": [["LIS", "MAD"], ["OSL"]]});
         let strategy = match k % 3 {
@@ -94,7 +109,7 @@ fn garbage_pool() -> Vec<J> {
 /// Cheap first pass: the full genuine list, the empty list, each single disclosure, each
 /// list with one disclosure left out, for every credential.
 fn cases_genuine(_rng: &mut Rng, sink: &mut dyn FnMut(J) -> bool) {
-    for k in 0..18 {
+    for k in 0..24 {
         let n = n_genuine(k);
         let all: Vec<J> = (0..n).map(|i| json!({ "g": i })).collect();
         let mut lists = vec![all.clone(), vec![]];
@@ -166,7 +181,7 @@ fn cases_smuggled(_rng: &mut Rng, sink: &mut dyn FnMut(J) -> bool) {
 }
 
 fn cases_single(_rng: &mut Rng, sink: &mut dyn FnMut(J) -> bool) {
-    for k in 0..9 {
+    for k in 0..12 {
         let n = n_genuine(k);
         let genuine: Vec<J> = (0..n).map(|i| json!({ "g": i })).collect();
         let mut devs: Vec<J> = Vec::new();
@@ -210,7 +225,7 @@ fn cases_single(_rng: &mut Rng, sink: &mut dyn FnMut(J) -> bool) {
 }
 
 fn cases_triples(_rng: &mut Rng, sink: &mut dyn FnMut(J) -> bool) {
-    for k in [0usize, 1, 4, 7] {
+    for k in [0usize, 1, 4, 7, 9] {
         let mut pool: Vec<J> = vec![json!({"g": 0}), json!({"g": 1}), json!({"g": 2}), json!({"g": 3})];
         pool.extend(forged_pool().into_iter().take(7));
         pool.extend(garbage_pool().into_iter().take(4));
@@ -229,7 +244,7 @@ fn cases_triples(_rng: &mut Rng, sink: &mut dyn FnMut(J) -> bool) {
 }
 
 fn cases_subsets(rng: &mut Rng, sink: &mut dyn FnMut(J) -> bool) {
-    for k in 0..9 {
+    for k in 0..12 {
         let n = n_genuine(k);
         for mask in 0u32..(1 << n) {
             let subset: Vec<J> = (0..n).filter(|i| mask >> i & 1 == 1).map(|i| json!({ "g": i })).collect();
@@ -258,7 +273,7 @@ fn cases_random(rng: &mut Rng, sink: &mut dyn FnMut(J) -> bool) {
     let forged = forged_pool();
     let garbage = garbage_pool();
     loop {
-        let k = rng.below(18);
+        let k = rng.below(24);
         let n = n_genuine(k);
         let len = rng.below(8);
         let mut l = Vec::new();
